@@ -6,13 +6,23 @@ PRE = r'''
 #[derive(PartialEq, Eq, Clone, Copy)] pub struct BlockId(pub u32);
 #[derive(PartialEq, Eq, Clone, Copy)] pub struct ScopeId(pub u32);
 #[derive(PartialEq, Eq, Clone, Copy)] pub struct StmtId(pub u32);
-#[derive(Clone, Copy)] pub struct UnreachableCause { pub k: u8 }
+#[derive(Clone, Copy)] pub enum UnreachableCause { Return, Break, Continue }
 '''
 
 MODEL = r'''
 // the part of Terminator this arm builds (Goto) or obtains from branch_terminator (Branch); other variants are not involved
 #[derive(PartialEq, Eq, Clone, Copy)]
-pub enum Terminator { Goto { target: BlockId }, Branch { then_target: BlockId, else_target: BlockId } }
+pub enum Terminator {
+    Goto { target: BlockId }, Branch { then_target: BlockId, else_target: BlockId },
+    Break { stmt: StmtId, target: Option<BlockId> }, Continue { stmt: StmtId, target: Option<BlockId> },
+}
+// `loop_ctx.map(|ctx| ctx.break_target)` / `.map(|ctx| ctx.continue_target)` (Verus has no closures over Option::map here)
+fn ctx_break_target(c: Option<LoopContext>) -> (r: Option<BlockId>)
+    ensures r == (match c { Some(x) => Some(x.break_target), None => None::<BlockId> })
+{ match c { Some(x) => Some(x.break_target), None => None } }
+fn ctx_continue_target(c: Option<LoopContext>) -> (r: Option<BlockId>)
+    ensures r == (match c { Some(x) => Some(x.continue_target), None => None::<BlockId> })
+{ match c { Some(x) => Some(x.continue_target), None => None } }
 
 // Ghost record of what the builder was asked to do.  Every shim below states what the real method does to the graph:
 //   new_block          -> a block id never returned before
@@ -80,6 +90,11 @@ impl G {
                     old(self).term@.dom().contains(b) ==> final(self).term@.dom().contains(b) && final(self).term@[b] == old(self).term@[b],
     { unimplemented!() }
     #[verifier::external_body]
+    pub fn kill_scopes_through(&mut self, b: BlockId, scopes: &Scopes, boundary: ScopeId)
+        ensures final(self).term@ == old(self).term@, final(self).next@ == old(self).next@, final(self).pre@ == old(self).pre@,
+                final(self).body_start@ == old(self).body_start@, final(self).body_ctx@ == old(self).body_ctx@, final(self).body_tail@ == old(self).body_tail@,
+    { unimplemented!() }
+    #[verifier::external_body]
     pub fn add_scope_kills(&mut self, b: BlockId, s: ScopeId)
         ensures final(self).term@ == old(self).term@, final(self).next@ == old(self).next@, final(self).pre@ == old(self).pre@,
                 final(self).body_start@ == old(self).body_start@, final(self).body_ctx@ == old(self).body_ctx@, final(self).body_tail@ == old(self).body_tail@,
@@ -119,5 +134,31 @@ UNIT = VUnit(
                         Rw("R9", r"self\.branch_terminator\(stmt_id, \*span, ", "g.branch_terminator(stmt_id, ", min_matches=1),
                         Rw("R9", r"self\.(ensure_block|new_block|set_terminator|lower_block|add_scope_kills)\(", r"g.\1(", min_matches=8)],
               real_name="FunctionBuilder::lower_stmt (Stmt::Loop arm: shape of the lowered loop)"),
+        # comot ends its block with a Break edge to the enclosing loop's exit, next with a Continue edge to its condition block;
+        # what follows either is dead
+        Block("lower_break", within="lower_stmt", impl="impl FunctionBuilder", arm=True,
+              anchor=r"Stmt::Break \{ span \} =>",
+              sig="fn lower_break(g: &mut G, loop_ctx: Option<LoopContext>, cursor0: Cursor, parent_stmt: Option<StmtId>, scope_stack: &mut Scopes, program: &mut Program) -> (res: Cursor)",
+              prologue="    let mut cursor = cursor0;",
+              ensures=["res.block is None",
+                       "final(g).pre@ is Some && final(g).term@.dom().contains(final(g).pre@->Some_0) && final(g).term@[final(g).pre@->Some_0] is Break",
+                       "loop_ctx is Some ==> final(g).term@[final(g).pre@->Some_0]->Break_target == Some(loop_ctx->Some_0.break_target)"],
+              rewrites=[Rw("R9", r"self\.push_stmt\(program, block, stmt, \*span, parent_stmt\)", "g.push_stmt(program, block, parent_stmt)", min_matches=1),
+                        Rw("R9", r"loop_ctx\.map\(\|ctx\| ctx\.(break|continue)_target\)", r"ctx_\1_target(loop_ctx)", min_matches=1),
+                        Rw("R6", r"span: \*span,", "", min_matches=1),
+                        Rw("R9", r"self\.(ensure_block|set_terminator|kill_scopes_through)\(", r"g.\1(", min_matches=3)],
+              real_name="FunctionBuilder::lower_stmt (Stmt::Break arm)"),
+        Block("lower_continue", within="lower_stmt", impl="impl FunctionBuilder", arm=True,
+              anchor=r"Stmt::Continue \{ span \} =>",
+              sig="fn lower_continue(g: &mut G, loop_ctx: Option<LoopContext>, cursor0: Cursor, parent_stmt: Option<StmtId>, scope_stack: &mut Scopes, program: &mut Program) -> (res: Cursor)",
+              prologue="    let mut cursor = cursor0;",
+              ensures=["res.block is None",
+                       "final(g).pre@ is Some && final(g).term@.dom().contains(final(g).pre@->Some_0) && final(g).term@[final(g).pre@->Some_0] is Continue",
+                       "loop_ctx is Some ==> final(g).term@[final(g).pre@->Some_0]->Continue_target == Some(loop_ctx->Some_0.continue_target)"],
+              rewrites=[Rw("R9", r"self\.push_stmt\(program, block, stmt, \*span, parent_stmt\)", "g.push_stmt(program, block, parent_stmt)", min_matches=1),
+                        Rw("R9", r"loop_ctx\.map\(\|ctx\| ctx\.(break|continue)_target\)", r"ctx_\1_target(loop_ctx)", min_matches=1),
+                        Rw("R6", r"span: \*span,", "", min_matches=1),
+                        Rw("R9", r"self\.(ensure_block|set_terminator|kill_scopes_through)\(", r"g.\1(", min_matches=3)],
+              real_name="FunctionBuilder::lower_stmt (Stmt::Continue arm)"),
     ],
 )
